@@ -335,3 +335,30 @@ Proof.
     destruct (ReflectOrderProofs.collect_perm fs fs' Hp) as [H1 H2].
     exact (proj2 (ReflectOrderProofs.reflect_order_independent D Hwf fs fs' H1 H2) S S' HS HS').
 Qed.
+
+(* ---- towards the two equivalences: ClientProperties reads the set only on the keys reachable through
+   flattened fields.  Two sets that agree on a key set P which is closed under flatten targets (in the
+   first set) give the same run, whatever else they hold.  (With "the keys a build adds are those
+   reachable from the message and absent before", P := the keys of the fresh post-state carries the
+   verdict of the name check between a cache with a history and a fresh one; that lemma is not proved.) *)
+Lemma client_props_agree S S' (P : ref -> Prop) :
+  (forall k, P k -> lookup S k = lookup S' k) ->
+  (forall k n d en am ps, P k -> lookup S k = Some (Linked (RObject n d en am ps)) ->
+     forall t, In t (flat_targets ps) -> P t) ->
+  forall f ps, (forall t, In t (flat_targets ps) -> P t) ->
+  client_props f S ps = client_props f S' ps.
+Proof.
+  intros Hag Hcl. induction f as [|f IHf]; intros ps Hps; [reflexivity|].
+  induction ps as [|p r IHr]; [reflexivity|].
+  assert (Hr : forall t, In t (flat_targets r) -> P t).
+  { intros t Ht. apply Hps. unfold flat_targets in *. cbn [flat_map]. apply in_or_app. right. exact Ht. }
+  rewrite !ReflectFlattenProofs.client_props_cons. rewrite (IHr Hr).
+  destruct p as [j path rq eo d s].
+  destruct s as [kw sp|od ty lr|er rules lr ext|k fl rules ext|k rules lr ext|item rules ext|item rules ext]; try reflexivity.
+  destruct fl; [|reflexivity].
+  assert (Hk : P k).
+  { apply Hps. unfold flat_targets. cbn [flat_map p_schema]. left. reflexivity. }
+  rewrite <- (Hag k Hk).
+  destruct (lookup S k) as [[|[n0 d0 en0 am0 cps0|n0 d0 ps0|n0 d0 a0 b0 c0]]|] eqn:El; try reflexivity.
+  rewrite (IHf cps0 (Hcl k n0 d0 en0 am0 cps0 Hk El)). reflexivity.
+Qed.
